@@ -219,7 +219,7 @@ func c16Case(w *rt.W, st *c16State, f *c16Formatter, vi, flag int, prefix []byte
 func runC16(c *rt.Ctx) {
 	configuredEpisode() // the process has a past: failing configured Formatters and Parsers, since restored
 	c.Extra("history_before_the_streams", "an episode of failing configured Formatter/Parser variables in all five packages")
-	c.SetRule("for each of the five DefaultFormatter functions: boundary values x every format-flag subset (date 2, roman 128, sem 2, size 4, uu 2) x prefixes {empty, each single byte 0..255, strings over the formatter's own alphabet, seeded binary strings of length 1..40} x spare capacities {0,1,need-1,need,need+1,64,seeded} (all 0..64 in thorough); " +
+	c.SetRule("for each of the five DefaultFormatter functions: boundary values x every format-flag subset (date 2, roman 128, sem 2, size 4, uu 2) x prefixes {empty, each single byte 0..255, strings over the formatter's own alphabet, text that means something to fmt/templates/regexp replacement and multi-byte text in front of the formatter's own letters (prefixes.go), seeded binary strings of length 1..40} x spare capacities {0,1,need-1,need,need+1,64,seeded} (all 0..64 in thorough); " +
 		"the buffer is carved from a backing array with known content so in-place edits and writes past the capacity are visible; ID.URN against \"urn:uuid:\"+String for seeded IDs. " +
 		"distinct_nontrivial counts distinct (formatter, value, flags, prefix) combinations whose prefix contains a byte the formatter can emit, each enumerated once")
 	c.Assume("format(nil, v, f) is the reference for format(prefix, v, f); its own correctness is checked by C01/C02/C05/C13")
@@ -291,6 +291,7 @@ func runC16(c *rt.Ctx) {
 		for _, n := range []int{64, 100, 200, 255, 256, 257, 300, 400, 512, 700, 1000, 1024, 1500, 2048, 3000, 4095, 4096, 4097, 70000} { // existing content of every size class (a line, a log buffer, a page)
 			prefixes = append(prefixes, []byte(strings.Repeat(f.alphabet[0], n/len(f.alphabet[0])+1)[:n]))
 		}
+		prefixes = append(prefixes, textPrefixes(f.alphabet)...)
 		rg := rt.NewRand(c.Seed, "C16/prefix/"+f.name, 0)
 		for i := 0; i < nSeeded; i++ {
 			prefixes = append(prefixes, rg.Bytes(1+rg.Intn(40)))
